@@ -42,6 +42,37 @@ def make_jobs(rng, tier, n_gen=10, n_bench=3, n_traj=5):
             job["seed_type"] = "np.int64"     # a NumPy integer as the seed
         jobs.append(job)
         jid += 1
+    # generations that do not complete: rejected parameter sets (the caller
+    # catches the exception), a generation interrupted half way (virtual-time
+    # budget, the analogue of Ctrl-C / a timeout) and one that raises inside
+    # the host loop.  Whatever they leave behind in the process must not
+    # change any seeded job that runs after them.
+    fr = core.stream(rng.getrandbits(48), "gen-faults")
+    for _ in range(3):
+        p = configs.gen_params(fr, max_hosts=40)
+        mode = fr.choice(["rejected", "rejected", "interrupted",
+                          "interrupted", "natural"])
+        job = {"id": jid, "kind": "gen_fault", "mode": mode, "params": p}
+        if mode == "rejected":
+            how = fr.choice(["exploit_probs_len", "privesc_probs_range",
+                             "bounds_small", "privesc_probs_type"])
+            job["how"] = how
+            if how == "exploit_probs_len":
+                p["exploit_probs"] = [0.5] * ((p.get("num_exploits")
+                                               or p["num_services"]) + 1)
+            elif how == "privesc_probs_range":
+                p["privesc_probs"] = 1.5
+            elif how == "privesc_probs_type":
+                p["privesc_probs"] = "mixed"
+            else:
+                p["address_space_bounds"] = [1, 1]
+        elif mode == "interrupted":
+            job["lines"] = fr.choice([30, 80, 200, 500, 1500, 4000])
+        else:
+            p["uniform"] = False
+            p["alpha_V"] = 1.0
+        jobs.append(job)
+        jid += 1
     for i in range(n_bench):
         name = rng.choice(configs.GEN_BENCH)
         jobs.append({"id": jid, "kind": "genbench", "name": name,
@@ -135,7 +166,8 @@ def compare(jobs, results, hashseeds):
                 # the same exception everywhere: not a reproducibility issue
                 continue
             clause = "C14.gen" if job["kind"] in (
-                "gen", "genbench", "genbench_unseeded") else "C14.traj"
+                "gen", "genbench", "genbench_unseeded", "gen_fault") \
+                else "C14.traj"
             groups = [{"digest": d, "runs(PYTHONHASHSEED,repetition)": v}
                       for d, v in sorted(seen.items())]
             raise Violation(
